@@ -334,7 +334,7 @@ class Injector:
     def on_tick(self, b, rec):
         if rec['what'] in ('irq', 'fiq'):
             b.cores[0].lines[rec['what']] = False       # the (absent) handler acknowledges at once
-        if self.expect is None:
+        if self.expect is None or not self.mon.complete:
             return
         t, want = self.expect
         if rec['what'] != 'step' and want not in ('irq', 'fiq'):
